@@ -3,6 +3,11 @@ C10 — validator-set snapshots and the validator set sent to a remote chain.
 Model: `Model/Valset.lean`. Histories are arbitrary lists of `Op` (staking changes, account
 registrations, chain support / activation / removal, snapshot builds with an arbitrary relayer
 oracle, on-chain activations, just-in-time updates) from the empty state.
+Named assumptions (inputs of the model, see their docstrings): `StakingWF` (SDK staking: distinct
+validator ids, bonded ⇒ tokens > 0), `RegsEvmTyped` (registered accounts are EVM-typed; only for
+the any-account reading of "restricted to validators with an account there").
+Clauses refuted as worded: "two thirds of 2^32" (`sent_two_thirds_violated`), "an account there"
+with one notion of account for snapshot and valset (`sent_restricted_any_account_violated`).
 -/
 import PalomaModel.Model.Valset
 
@@ -507,19 +512,47 @@ theorem current_store {s : St} (snap : Snapshot) (h : Inv s) (ht : snap.total = 
     simp [storeAsCurrent, h.last]
   rw [this]; exact hf
 
-theorem build_good {s : St} (now : Nat) (picks : List Nat) (h : Inv s)
-    (hw : (!worthy (current s) (createSnapshot s now)) = false) :
-    Good (storeAsCurrent s (createSnapshot s now)) (build s now picks).1 := by
+/-- the build goes through: `isNewSnapshotWorthy` does not panic and answers "worthy" -/
+def proceeds (s : St) (now : Nat) : Bool :=
+  !buildPanics s now && worthy (current s) (createSnapshot s now)
+
+theorem proceeds_iff (s : St) (now : Nat) :
+    proceeds s now = true ↔
+      buildPanics s now = false ∧ worthy (current s) (createSnapshot s now) = true := by
+  unfold proceeds
+  cases buildPanics s now <;> cases worthy (current s) (createSnapshot s now) <;> simp
+
+/-- a panicking build and a build that is not worthy: nothing happens -/
+theorem build_stuck {s : St} {now : Nat} (picks : List Nat) (h : proceeds s now = false) :
+    build s now picks = (s, none) := by
+  unfold proceeds at h
   unfold build
-  simp only [hw, Bool.false_eq_true, if_false]
+  cases hp : buildPanics s now
+  · rw [hp] at h
+    have hw : worthy (current s) (createSnapshot s now) = false := by simpa using h
+    simp [hw]
+  · simp
+
+theorem build_proceeds {s : St} {now : Nat} (picks : List Nat) (h : proceeds s now = true) :
+    build s now picks =
+      (publishAll (storeAsCurrent s (createSnapshot s now))
+        { createSnapshot s now with id := s.lastId + 1 } now picks,
+       some { createSnapshot s now with id := s.lastId + 1 }) := by
+  obtain ⟨hp, hw⟩ := (proceeds_iff s now).mp h
+  unfold build
+  simp [hp, hw]
+
+theorem build_good {s : St} (now : Nat) (picks : List Nat) (h : Inv s)
+    (hw : proceeds s now = true) :
+    Good (storeAsCurrent s (createSnapshot s now)) (build s now picks).1 := by
+  rw [build_proceeds picks hw]
   exact publishAll_good _ now picks (inv_store _ h rfl).good (current_store _ h rfl)
 
 theorem inv_build {s : St} (now : Nat) (picks : List Nat) (h : Inv s) : Inv (build s now picks).1 := by
-  cases hw : (!worthy (current s) (createSnapshot s now))
-  · exact inv_of_good (inv_store _ h rfl) (build_good now picks h hw)
-  · unfold build
-    simp only [hw, if_true]
+  cases hw : proceeds s now
+  · rw [build_stuck picks hw]
     exact h
+  · exact inv_of_good (inv_store _ h rfl) (build_good now picks h hw)
 
 theorem findChain_some {s : St} {c : Nat} {ci : ChainInfo} (h : findChain s c = some ci) :
     ci ∈ s.chains ∧ ci.ref = c := by
@@ -623,12 +656,11 @@ theorem step_snapsExtend {s : St} (op : Op) (h : Inv s) : SnapsExtend s.snaps (s
     split <;> exact SnapsExtend.refl _
   | build now picks =>
     simp only [step]
-    cases hw : (!worthy (current s) (createSnapshot s now))
+    cases hw : proceeds s now
+    · rw [build_stuck picks hw]
+      exact SnapsExtend.refl _
     · rw [(build_good now picks h hw).snaps]
       exact snapsExtend_append _ _
-    · unfold build
-      simp only [hw, if_true]
-      exact SnapsExtend.refl _
   | onChain id c =>
     simp only [step, setOnChain]
     split
@@ -721,18 +753,15 @@ theorem step_snaps_cases {s : St} (hi : Inv s) (op : Op) (sn : Snapshot)
     exact Or.inl (same (jit_good c pick hi).snaps h (fun _ => rfl))
   | build now picks =>
     simp only [step] at h
-    cases hw : (!worthy (current s) (createSnapshot s now))
+    cases hw : proceeds s now
+    · rw [build_stuck picks hw] at h
+      exact Or.inl ⟨sn, h, rfl, by simp [addedBy]⟩
     · rw [(build_good now picks hi hw).snaps] at h
       simp only [storeAsCurrent, List.mem_append, List.mem_singleton] at h
       rcases h with h | h
       · exact Or.inl ⟨sn, h, rfl, by simp [addedBy]⟩
       · refine Or.inr ⟨now, picks, rfl, ?_, by rw [h]; rfl⟩
-        unfold build
-        simp only [hw, Bool.false_eq_true, if_false]
-        rw [h]
-    · unfold build at h
-      simp only [hw, if_true] at h
-      exact Or.inl ⟨sn, h, rfl, by simp [addedBy]⟩
+        rw [build_proceeds picks hw, h]
   | onChain id c =>
     simp only [step, setOnChain] at h
     split at h
@@ -755,12 +784,15 @@ theorem step_snaps_cases {s : St} (hi : Inv s) (op : Op) (sn : Snapshot)
 snapshot that is current right after `op` (for a build: the snapshot this build stored; for a
 just-in-time update: the snapshot that was already current), for an active chain, it passed the
 quorum test, and it is pending in the queue -/
-def SentAt (s : St) (op : Op) (p : Nat × Valset) : Prop :=
-  ∃ cur, current (step s op) = some cur ∧ p.2 = transform cur p.1 ∧ enough p.2 = true ∧
+def SentAtCur (s : St) (op : Op) (p : Nat × Valset) (cur : Snapshot) : Prop :=
+  current (step s op) = some cur ∧ p.2 = transform cur p.1 ∧ enough p.2 = true ∧
     (∃ ci ∈ (step s op).chains, ci.ref = p.1 ∧ ci.active = true) ∧
     p ∈ (step s op).queue ∧
     ((∃ now picks, op = .build now picks ∧ (build s now picks).2 = some cur) ∨
      (∃ pick, op = .jit p.1 pick ∧ current s = some cur))
+
+/-- `SentAtCur` for some snapshot `cur` -/
+def SentAt (s : St) (op : Op) (p : Nat × Valset) : Prop := ∃ cur, SentAtCur s op p cur
 
 theorem step_sent {s : St} (hi : Inv s) (op : Op) :
     ∃ news, (step s op).sent = s.sent ++ news ∧ ∀ p ∈ news, SentAt s op p := by
@@ -794,7 +826,10 @@ theorem step_sent {s : St} (hi : Inv s) (op : Op) :
     simp only [step, setOnChain]
     split <;> rfl
   | build now picks =>
-    cases hw : (!worthy (current s) (createSnapshot s now))
+    cases hw : proceeds s now
+    · apply none
+      simp only [step]
+      rw [build_stuck picks hw]
     · have hg := build_good now picks hi hw
       obtain ⟨news, hn, hnews⟩ := hg.news
       refine ⟨news, by simpa [step, storeAsCurrent] using hn, ?_⟩
@@ -805,13 +840,8 @@ theorem step_sent {s : St} (hi : Inv s) (op : Op) :
       have hc0 : current (storeAsCurrent s (createSnapshot s now)) = some cur := by
         rw [← hg.current]; exact hc
       rw [current_store _ hi rfl] at hc0
-      unfold build
-      simp only [hw, Bool.false_eq_true, if_false]
+      rw [build_proceeds picks hw]
       exact hc0
-    · apply none
-      simp only [step]
-      unfold build
-      simp only [hw, if_true]
   | jit c pick =>
     have hg := jit_good c pick hi
     -- the log grows by at most the one message `(c, transform cur c)`
@@ -866,13 +896,36 @@ theorem run_sent_prefix {s : St} (ops : List Op) (hi : Inv s) : s.sent <+: (run 
 
 /-! ### the staking environment -/
 
-/-- ASSUMPTION on the environment (Cosmos SDK staking store, keyed by operator address):
-`IterateValidators` shows every validator once, i.e. every staking state fed to the model lists
-pairwise distinct validator ids -/
-def StakingWF (ops : List Op) : Prop := ∀ l, Op.setStaking l ∈ ops → (l.map (·.id)).Nodup
+theorem mem_le_sum_aux (l : List Nat) (a : Nat) (h : a ∈ l) : a ≤ l.sum := by
+  induction l with
+  | nil => simp at h
+  | cons b bs ih =>
+    simp only [List.sum_cons]
+    rcases List.mem_cons.mp h with rfl | h
+    · omega
+    · have := ih h; omega
+
+/-- ASSUMPTIONS on the environment (the Cosmos SDK staking module, which is an INPUT of the model:
+`setStaking`), for every staking state shown to the module at a snapshot build:
+ * `distinct` — the staking store is keyed by operator address, so `IterateValidators` shows every
+   validator once: pairwise distinct validator ids;
+ * `bonded ⇒ tokens > 0` — `TriggerSnapshotBuild` is only called from valset's `EndBlock`
+   (x/valset/module.go), which runs AFTER staking's `EndBlock` (app/app.go `SetOrderEndBlockers`);
+   there `ApplyAndReturnValidatorSetUpdates` leaves in status `Bonded` exactly the top validators
+   with `PotentialConsensusPower ≥ 1` (it `break`s at the first zero-power validator and moves all
+   other previously bonded ones to `Unbonding`), i.e. with `tokens ≥ PowerReduction > 0`.
+Both are facts of the SDK, not of /repo; neither is checked by `createNewSnapshot`
+(`staking_assumption_needed`, `bonded_positive_needed`). -/
+def StakingWF (ops : List Op) : Prop :=
+  ∀ l, Op.setStaking l ∈ ops →
+    (l.map (·.id)).Nodup ∧ ∀ sv ∈ l, sv.status = .bonded → 0 < sv.tokens
 
 theorem StakingWF.prefix {pre post : List Op} (h : StakingWF (pre ++ post)) : StakingWF pre :=
   fun l hl => h l (List.mem_append_left _ hl)
+
+/-- the state-level form of `StakingWF` -/
+def StakingOk (s : St) : Prop :=
+  (s.staking.map (·.id)).Nodup ∧ ∀ sv ∈ s.staking, sv.status = .bonded → 0 < sv.tokens
 
 theorem step_staking {s : St} (hi : Inv s) (op : Op) :
     (step s op).staking = s.staking ∨ ∃ l, op = .setStaking l ∧ (step s op).staking = l := by
@@ -893,31 +946,92 @@ theorem step_staking {s : St} (hi : Inv s) (op : Op) :
   | jit c pick => left; exact (jit_good c pick hi).staking
   | build now picks =>
     left
-    cases hw : (!worthy (current s) (createSnapshot s now))
+    cases hw : proceeds s now
+    · simp only [step]; rw [build_stuck picks hw]
     · exact (build_good now picks hi hw).staking
-    · simp only [step]; unfold build; simp only [hw, if_true]
 
-theorem staking_nodup (ops : List Op) (h : StakingWF ops) :
-    ((run St.init ops).staking.map (·.id)).Nodup := by
+/-- the assumption on the op inputs holds for the staking state of every reachable state -/
+theorem staking_ok (ops : List Op) (h : StakingWF ops) : StakingOk (run St.init ops) := by
   revert h
   induction ops using snoc_induction with
-  | h0 => intro _; simp [run, St.init]
+  | h0 => intro _; simp [run, St.init, StakingOk]
   | hs l a ih =>
     intro h
     rw [run_snoc]
     rcases step_staking (inv_reachable l) a with e | ⟨l', rfl, e⟩
-    · rw [e]; exact ih h.prefix
-    · rw [e]; exact h l' (by simp)
+    · unfold StakingOk; rw [e]; exact ih h.prefix
+    · unfold StakingOk; rw [e]; exact h l' (by simp)
+
+theorem staking_nodup (ops : List Op) (h : StakingWF ops) :
+    ((run St.init ops).staking.map (·.id)).Nodup := (staking_ok ops h).1
+
+theorem eq_of_nodup_map {α β : Type} (f : α → β) {l : List α} (h : (l.map f).Nodup)
+    {a b : α} (ha : a ∈ l) (hb : b ∈ l) (e : f a = f b) : a = b := by
+  induction l with
+  | nil => simp at ha
+  | cons x xs ih =>
+    simp only [List.map_cons, List.nodup_cons, List.mem_map, not_exists, not_and] at h
+    rcases List.mem_cons.mp ha with rfl | ha' <;> rcases List.mem_cons.mp hb with rfl | hb'
+    · rfl
+    · exact absurd e.symm (h.1 b hb')
+    · exact absurd e (h.1 a ha')
+    · exact ih h.2 ha' hb'
+
+theorem sumShares_pos {l : List Val} {v : Val} (hv : v ∈ l) (h : 0 < v.share) : 0 < sumShares l := by
+  unfold sumShares
+  have : v.share ∈ l.map (·.share) := List.mem_map.mpr ⟨v, hv, rfl⟩
+  have := mem_le_sum_aux _ _ this
+  omega
+
+/-- members of a fresh snapshot come from eligible (hence bonded) staking validators -/
+theorem mem_createSnapshot {s : St} {now : Nat} {v : Val} (h : v ∈ (createSnapshot s now).vals) :
+    ∃ sv ∈ s.staking, eligible s sv = true ∧
+      v = { id := sv.id, share := sv.tokens, accts := acctsOf s sv.id } := by
+  simp only [createSnapshot, List.mem_map, List.mem_filter] at h
+  obtain ⟨sv, ⟨h1, h2⟩, rfl⟩ := h
+  exact ⟨sv, h1, h2, rfl⟩
+
+theorem createSnapshot_total_pos {s : St} (now : Nat) (h : StakingOk s)
+    (hne : (createSnapshot s now).vals ≠ []) : 0 < (createSnapshot s now).total := by
+  obtain ⟨v, hv⟩ := List.exists_mem_of_ne_nil _ hne
+  obtain ⟨sv, hsv, hel, rfl⟩ := mem_createSnapshot hv
+  have hb : sv.status = .bonded := ((eligible_iff s sv).mp hel).1
+  exact sumShares_pos (v := { id := sv.id, share := sv.tokens, accts := acctsOf s sv.id }) hv
+    (h.2 sv hsv hb)
+
+/-! ### `isNewSnapshotWorthy` never looks at `x / 0` -/
+
+/-- `fraction18` with an arbitrary junk value `j` for a zero divisor -/
+def fraction18J (j share total : Nat) : Nat := if total = 0 then j else share * 10 ^ 18 / total
+
+/-- `worthyAgainst` computed with `fraction18J j` -/
+def worthyAgainstJ (j : Nat) (cur new : Snapshot) : Bool :=
+  if cur.vals.length != new.vals.length then true else
+  if new.vals.any (fun v => !(cur.vals.any (fun w => w.id == v.id))) then true else
+  if zipAny (fun a b => a.id != b.id) (sortAsc cur.vals) (sortAsc new.vals) then true else
+  if zipAny (fun a b => absDiff (fraction18J j a.share cur.total) (fraction18J j b.share new.total) ≥ 10 ^ 16)
+      (sortAsc cur.vals) (sortAsc new.vals) then true else
+  zipAny (fun a b => acctsDiffer a.accts b.accts) (sortAsc cur.vals) (sortAsc new.vals)
+
+theorem fraction18J_pos (j share : Nat) {total : Nat} (h : total ≠ 0) :
+    fraction18J j share total = fraction18 share total := by
+  unfold fraction18J fraction18
+  rw [if_neg h]
+
+theorem zipAny_nil_left (f : Val → Val → Bool) (l : List Val) : zipAny f [] l = false := by
+  unfold zipAny; rfl
 
 theorem build_some {s : St} {now : Nat} {picks : List Nat} {x : Snapshot}
     (h : (build s now picks).2 = some x) :
+    proceeds s now = true ∧ buildPanics s now = false ∧
     worthy (current s) (createSnapshot s now) = true ∧
       x = { createSnapshot s now with id := s.lastId + 1 } := by
-  unfold build at h
-  split at h
-  · simp at h
-  · rename_i hw
-    exact ⟨by simpa using hw, (Option.some.inj h).symm⟩
+  cases hw : proceeds s now
+  · rw [build_stuck picks hw] at h
+    simp at h
+  · rw [build_proceeds picks hw] at h
+    obtain ⟨hp, hwo⟩ := (proceeds_iff s now).mp hw
+    exact ⟨rfl, hp, hwo, (Option.some.inj h).symm⟩
 
 theorem sum_zero_power (c : Nat) (l : List Val) :
     (l.map (fun v => (chosen c v).length * power v.share 0)).sum = 0 := by
@@ -928,14 +1042,141 @@ theorem sum_zero_power (c : Nat) (l : List Val) :
   | nil => rfl
   | cons a as ih => simpa using ih
 
-theorem mem_le_sum (l : List Nat) (a : Nat) (h : a ∈ l) : a ≤ l.sum := by
+theorem mem_le_sum (l : List Nat) (a : Nat) (h : a ∈ l) : a ≤ l.sum := mem_le_sum_aux l a h
+
+/-- when `quoPanics` is false the answer of `isNewSnapshotWorthy` does not depend on what a
+division by zero would yield: either an earlier test decides, or the snapshots are empty (the
+percentage loop has no iteration), or both totals are positive -/
+theorem worthyAgainstJ_eq (j : Nat) (cur new : Snapshot) (h : quoPanics cur new = false) :
+    worthyAgainstJ j cur new = worthyAgainst cur new := by
+  unfold quoPanics at h
+  unfold worthyAgainstJ worthyAgainst
+  split
+  · rfl
+  · rw [if_neg (by assumption)] at h
+    split
+    · rfl
+    · rw [if_neg (by assumption)] at h
+      split
+      · rfl
+      · rw [if_neg (by assumption)] at h
+        cases hv : cur.vals with
+        | nil =>
+          have : sortAsc ([] : List Val) = [] := rfl
+          simp only [this, zipAny_nil_left]
+        | cons x xs =>
+          rw [hv] at h
+          have h' : (cur.total == 0 || new.total == 0) = false := by simpa using h
+          have hc : cur.total ≠ 0 := by
+            intro e; rw [e] at h'; simp at h'
+          have hn : new.total ≠ 0 := by
+            intro e; rw [e] at h'; simp at h'
+          have e : (fun a b : Val => decide (absDiff (fraction18J j a.share cur.total)
+                (fraction18J j b.share new.total) ≥ 10 ^ 16)) =
+              (fun a b : Val => decide (absDiff (fraction18 a.share cur.total)
+                (fraction18 b.share new.total) ≥ 10 ^ 16)) := by
+            funext a b
+            rw [fraction18J_pos j _ hc, fraction18J_pos j _ hn]
+          rw [e]
+
+/-! ### external accounts and their chain types -/
+
+/-- every registered account is EVM-typed -/
+def AcctsEvm (s : St) : Prop := ∀ p ∈ s.accts, ∀ x ∈ p.2, isEvm x.ctype = true
+
+theorem mem_putAccts {l : List (Nat × List Acct)} {v : Nat} {a : List Acct} {p : Nat × List Acct}
+    (h : p ∈ putAccts l v a) : p ∈ l ∨ p = (v, a) := by
+  unfold putAccts at h
+  split at h
+  · obtain ⟨q, hq, rfl⟩ := List.mem_map.mp h
+    split
+    · exact Or.inr rfl
+    · exact Or.inl hq
+  · rcases List.mem_append.mp h with h | h
+    · exact Or.inl h
+    · exact Or.inr (by simpa using h)
+
+theorem step_accts {s : St} (hi : Inv s) (op : Op) :
+    (step s op).accts = s.accts ∨
+      ∃ v a, op = .register v a ∧ (step s op).accts = putAccts s.accts v a := by
+  cases op with
+  | setStaking l => exact Or.inl rfl
+  | register v a =>
+    simp only [step, register]
+    split
+    · exact Or.inl rfl
+    · split
+      · exact Or.inl rfl
+      · split
+        · exact Or.inl rfl
+        · exact Or.inr ⟨v, a, rfl, rfl⟩
+  | support c => left; simp only [step, support]; split <;> rfl
+  | activate c => left; simp only [step, activate]; split <;> rfl
+  | remove c => left; simp only [step, remove]; split <;> rfl
+  | onChain id c => left; simp only [step, setOnChain]; split <;> rfl
+  | jit c pick => left; exact (jit_good c pick hi).accts
+  | build now picks =>
+    left
+    cases hw : proceeds s now
+    · simp only [step]; rw [build_stuck picks hw]
+    · exact (build_good now picks hi hw).accts
+
+theorem mem_acctsOf {s : St} {v : Nat} {x : Acct} (h : x ∈ acctsOf s v) :
+    ∃ p ∈ s.accts, x ∈ p.2 := by
+  unfold acctsOf at h
+  cases hf : s.accts.find? (fun p => p.1 == v) with
+  | none => rw [hf] at h; simp at h
+  | some p =>
+    rw [hf] at h
+    exact ⟨p, List.mem_of_find?_eq_some hf, by simpa using h⟩
+
+/-- ASSUMPTION candidate on the registration inputs (NOT enforced by /repo:
+`SetExternalChainInfoState` stores any chain type): every account ever registered is EVM-typed.
+All chains of the model are chains of the evm module, so this says "accounts on EVM chains are
+EVM-typed". -/
+def RegsEvmTyped (ops : List Op) : Prop :=
+  ∀ v a, Op.register v a ∈ ops → ∀ x ∈ a, isEvm x.ctype = true
+
+theorem RegsEvmTyped.prefix {pre post : List Op} (h : RegsEvmTyped (pre ++ post)) : RegsEvmTyped pre :=
+  fun v a hl => h v a (List.mem_append_left _ hl)
+
+theorem accts_evm_reachable (ops : List Op) (h : RegsEvmTyped ops) : AcctsEvm (run St.init ops) := by
+  revert h
+  induction ops using snoc_induction with
+  | h0 => intro _; simp [run, St.init, AcctsEvm]
+  | hs l a ih =>
+    intro h
+    rw [run_snoc]
+    rcases step_accts (inv_reachable l) a with e | ⟨v, ac, rfl, e⟩
+    · unfold AcctsEvm; rw [e]; exact ih h.prefix
+    · unfold AcctsEvm; rw [e]
+      intro p hp x hx
+      rcases mem_putAccts hp with hp | rfl
+      · exact ih h.prefix p hp x hx
+      · exact h v ac (by simp) x hx
+
+theorem any_matching_of_evm {c : Nat} (l : List Acct) (h : ∀ x ∈ l, isEvm x.ctype = true) :
+    l.any (fun a => isEvm a.ctype && a.chain == c) = l.any (fun a => a.chain == c) := by
   induction l with
-  | nil => simp at h
-  | cons b bs ih =>
-    simp only [List.sum_cons]
-    rcases List.mem_cons.mp h with rfl | h
-    · omega
-    · have := ih h; omega
+  | nil => rfl
+  | cons x xs ih =>
+    simp only [List.any_cons]
+    rw [h x (by simp), Bool.true_and, ih (fun y hy => h y (List.mem_cons_of_mem _ hy))]
+
+theorem head?_filter_of_mem {l : List Acct} {q : Acct → Bool} {a : Acct} (ha : a ∈ l) (hq : q a = true) :
+    ∃ b, (l.filter q).head? = some b := by
+  cases hf : l.filter q with
+  | nil =>
+    have : a ∈ l.filter q := List.mem_filter.mpr ⟨ha, hq⟩
+    rw [hf] at this; simp at this
+  | cons b bs => exact ⟨b, rfl⟩
+
+theorem matching_of_evm {c : Nat} {v : Val} (h : ∀ x ∈ v.accts, isEvm x.ctype = true) :
+    matching c v = v.accts.filter (fun a => a.chain == c) := by
+  unfold matching
+  apply List.filter_congr
+  intro x hx
+  rw [h x hx, Bool.true_and]
 
 end Lemmas
 
@@ -986,9 +1227,8 @@ theorem build_stores_exact (ops : List Op) (now : Nat) (picks : List Nat) (sn : 
     findSnapshot (build (run St.init ops) now picks).1 sn.id = some sn := by
   have hi := inv_reachable ops
   generalize run St.init ops = s at h hi ⊢
-  obtain ⟨hw, hs⟩ := build_some h
-  have hw' : (!worthy (current s) (createSnapshot s now)) = false := by simp [hw]
-  have hg := build_good now picks hi hw'
+  obtain ⟨hpr, _, _, hs⟩ := build_some h
+  have hg := build_good now picks hi hpr
   have hc : current (build s now picks).1 = some sn := by
     rw [hg.current, current_store _ hi rfl, hs]
   refine ⟨hs, hc, ?_⟩
@@ -1032,9 +1272,11 @@ For every record `sn` of the store of every reachable state there is a point `pr
 `sn.id` is the next id, `sn.vals` is — in store order — exactly the staking validators of `s` that
 are bonded, not jailed and have an account on every chain active in `s`, each with share = its
 tokens and its registered accounts; `sn.total` is the sum of the shares; the chain list is what
-later on-chain activations appended. -/
+later on-chain activations appended. (`buildPanics … = false`: that build did not run into Go's
+division by zero, see Part 1b.) -/
 theorem stored_snapshot_exact (ops : List Op) (sn : Snapshot) (h : sn ∈ (run St.init ops).snaps) :
     ∃ pre now picks post, ops = pre ++ Op.build now picks :: post ∧
+      buildPanics (run St.init pre) now = false ∧
       worthy (current (run St.init pre)) (createSnapshot (run St.init pre) now) = true ∧
       sn.id = (run St.init pre).lastId + 1 ∧ sn.createdAt = now ∧
       sn.vals = ((run St.init pre).staking.filter (eligible (run St.init pre))).map
@@ -1046,7 +1288,7 @@ theorem stored_snapshot_exact (ops : List Op) (sn : Snapshot) (h : sn ∈ (run S
       sn.total = (sn.vals.map (·.share)).sum ∧
       sn.chains = chainsAdded sn.id post := by
   obtain ⟨pre, now, picks, post, hops, hb, hch⟩ := stored_provenance ops sn h
-  obtain ⟨hw, hx⟩ := build_some hb
+  obtain ⟨_, hnp, hw, hx⟩ := build_some hb
   have hid : sn.id = (run St.init pre).lastId + 1 := by
     have := congrArg Snapshot.id hx; exact this
   have hvals : sn.vals = (createSnapshot (run St.init pre) now).vals := by
@@ -1055,7 +1297,7 @@ theorem stored_snapshot_exact (ops : List Op) (sn : Snapshot) (h : sn ∈ (run S
     have := congrArg Snapshot.total hx; exact this
   have hat : sn.createdAt = now := by
     have := congrArg Snapshot.createdAt hx; exact this
-  refine ⟨pre, now, picks, post, hops, hw, hid, hat, hvals, ?_, ?_, hch⟩
+  refine ⟨pre, now, picks, post, hops, hnp, hw, hid, hat, hvals, ?_, ?_, hch⟩
   · intro v
     rw [hvals]
     exact (snapshot_exact (run St.init pre) now).2.2.1 v
@@ -1069,30 +1311,53 @@ theorem stored_total_is_sum (ops : List Op) :
   (inv_reachable ops).totals
 
 /-- **stored_each_once** ("lists EXACTLY … each once"). ASSUMPTION `StakingWF` (environment, Cosmos
-SDK): the staking store is keyed by operator address, so every staking state shown to the module
-lists pairwise distinct validators. Then in every reachable state every stored snapshot lists
-pairwise distinct validators, its id list is a sublist (store order) of the staking ids at build
-time, and every eligible validator occurs in it exactly once. -/
+SDK; only its first part is used here): the staking store is keyed by operator address, so every
+staking state shown to the module lists pairwise distinct validators. Then for every stored
+snapshot `sn` of every reachable state, AT THE BUILD THAT STORED IT (the same `pre`, `now`, `picks`
+as in `stored_snapshot_exact`: not panicking, worthy, `sn.id` = the next id, `sn.vals` = the image
+of the eligible staking validators of the state before that build): the staking ids are pairwise
+distinct, `sn` lists pairwise distinct validators, its id list is a sublist (store order) of the
+staking ids, every eligible validator occurs in it exactly once and no other validator id occurs
+in it at all. -/
 theorem stored_each_once (ops : List Op) (hwf : StakingWF ops) (sn : Snapshot)
     (h : sn ∈ (run St.init ops).snaps) :
-    (sn.vals.map (·.id)).Nodup ∧
     ∃ pre now picks post, ops = pre ++ Op.build now picks :: post ∧
+      buildPanics (run St.init pre) now = false ∧
+      worthy (current (run St.init pre)) (createSnapshot (run St.init pre) now) = true ∧
+      sn.id = (run St.init pre).lastId + 1 ∧
+      sn.vals = ((run St.init pre).staking.filter (eligible (run St.init pre))).map
+          (fun sv => { id := sv.id, share := sv.tokens, accts := acctsOf (run St.init pre) sv.id }) ∧
+      ((run St.init pre).staking.map (·.id)).Nodup ∧
+      (sn.vals.map (·.id)).Nodup ∧
       (sn.vals.map (·.id)).Sublist ((run St.init pre).staking.map (·.id)) ∧
-      ∀ sv ∈ (run St.init pre).staking, eligible (run St.init pre) sv = true →
-        (sn.vals.map (·.id)).count sv.id = 1 := by
-  obtain ⟨pre, now, picks, post, hops, _, _, _, hvals, _, _, _⟩ := stored_snapshot_exact ops sn h
+      (∀ sv ∈ (run St.init pre).staking, eligible (run St.init pre) sv = true →
+        (sn.vals.map (·.id)).count sv.id = 1) ∧
+      (∀ sv ∈ (run St.init pre).staking, eligible (run St.init pre) sv = false →
+        (sn.vals.map (·.id)).count sv.id = 0) := by
+  obtain ⟨pre, now, picks, post, hops, hnp, hw, hid, _, hvals, _, _, _⟩ :=
+    stored_snapshot_exact ops sn h
   have hmap : sn.vals.map (·.id) =
       ((run St.init pre).staking.filter (eligible (run St.init pre))).map (·.id) := by
     rw [hvals, List.map_map]; rfl
   have hsub : (sn.vals.map (·.id)).Sublist ((run St.init pre).staking.map (·.id)) := by
     rw [hmap]; exact List.Sublist.map _ List.filter_sublist
-  have hnd : (sn.vals.map (·.id)).Nodup :=
-    List.Nodup.sublist hsub (staking_nodup pre (by rw [hops] at hwf; exact hwf.prefix))
-  refine ⟨hnd, pre, now, picks, post, hops, hsub, ?_⟩
-  intro sv hsv hel
-  rw [List.Nodup.count hnd, if_pos]
-  rw [hmap]
-  exact List.mem_map.mpr ⟨sv, List.mem_filter.mpr ⟨hsv, hel⟩, rfl⟩
+  have hst : ((run St.init pre).staking.map (·.id)).Nodup :=
+    staking_nodup pre (by rw [hops] at hwf; exact hwf.prefix)
+  have hnd : (sn.vals.map (·.id)).Nodup := List.Nodup.sublist hsub hst
+  refine ⟨pre, now, picks, post, hops, hnp, hw, hid, hvals, hst, hnd, hsub, ?_, ?_⟩
+  · intro sv hsv hel
+    rw [List.Nodup.count hnd, if_pos]
+    rw [hmap]
+    exact List.mem_map.mpr ⟨sv, List.mem_filter.mpr ⟨hsv, hel⟩, rfl⟩
+  · intro sv hsv hel
+    rw [List.Nodup.count hnd, if_neg]
+    rw [hmap]
+    intro hm
+    obtain ⟨sv', hsv', e⟩ := List.mem_map.mp hm
+    obtain ⟨h1, h2⟩ := List.mem_filter.mp hsv'
+    have : sv' = sv := eq_of_nodup_map (·.id) hst h1 hsv e
+    rw [this, hel] at h2
+    exact Bool.noConfusion h2
 
 /-- **the assumption is needed**: the model (like `createNewSnapshot`) does not deduplicate — a
 staking iteration that showed a validator twice would be listed twice and counted twice. -/
@@ -1100,6 +1365,104 @@ theorem staking_assumption_needed :
     ∃ ops, ∃ sn ∈ (run St.init ops).snaps, ¬ (sn.vals.map (·.id)).Nodup :=
   ⟨[.setStaking [⟨1, .bonded, false, 5⟩, ⟨1, .bonded, false, 5⟩], .build 1 []],
     ⟨1, [⟨1, 5, []⟩, ⟨1, 5, []⟩], 10, 1, []⟩, by decide, by decide⟩
+
+/-- **the second assumption is needed too**: `createNewSnapshot` accepts a bonded validator with
+0 tokens; the snapshot it stores has a validator and total 0. -/
+theorem bonded_positive_needed :
+    ∃ ops, ∃ sn ∈ (run St.init ops).snaps, sn.vals ≠ [] ∧ sn.total = 0 :=
+  ⟨[.setStaking [⟨1, .bonded, false, 0⟩], .build 1 []],
+    ⟨1, [⟨1, 0, []⟩], 0, 1, []⟩, by decide, by decide, rfl⟩
+
+/-! ### Part 1b — totals are positive, `isNewSnapshotWorthy` never divides by zero -/
+
+/-- **stored_total_pos** (ASSUMPTION `StakingWF`, second part: bonded ⇒ tokens > 0). In every
+history whose staking inputs are well formed, every stored snapshot that lists a validator has a
+POSITIVE total, and every listed share is positive. (An empty snapshot has total 0; it is stored
+e.g. by the very first build of `St.init`.) -/
+theorem stored_total_pos (ops : List Op) (hwf : StakingWF ops) (sn : Snapshot)
+    (h : sn ∈ (run St.init ops).snaps) :
+    (∀ v ∈ sn.vals, 0 < v.share) ∧ (sn.vals ≠ [] → 0 < sn.total) ∧ (sn.vals = [] → sn.total = 0) := by
+  obtain ⟨pre, now, picks, post, hops, _, _, _, _, hvals, hmem, htot, _⟩ :=
+    stored_snapshot_exact ops sn h
+  have hok := staking_ok pre (by rw [hops] at hwf; exact hwf.prefix)
+  have hsh : ∀ v ∈ sn.vals, 0 < v.share := by
+    intro v hv
+    obtain ⟨sv, hsv, hb, _, _, rfl⟩ := (hmem v).mp hv
+    exact hok.2 sv hsv hb
+  refine ⟨hsh, ?_, ?_⟩
+  · intro hne
+    obtain ⟨v, hv⟩ := List.exists_mem_of_ne_nil _ hne
+    rw [htot]
+    exact sumShares_pos hv (hsh v hv)
+  · intro he
+    rw [htot, he]; rfl
+
+/-- **build_never_panics** (the C09 concern: `LegacyNewDecFromInt(share).QuoInt(TotalShares)` in
+`isNewSnapshotWorthy`). ASSUMPTION `StakingWF`. In every reachable state of a well-formed history a
+snapshot build does NOT run into the division by zero: whenever the percentage loop is entered
+(same non-empty validator list, same order), both the current snapshot's total and the new
+snapshot's total are positive. -/
+theorem build_never_panics (ops : List Op) (hwf : StakingWF ops) (now : Nat) :
+    buildPanics (run St.init ops) now = false := by
+  unfold buildPanics
+  cases hc : current (run St.init ops) with
+  | none => rfl
+  | some c =>
+    simp only
+    have hcs := stored_total_pos ops hwf c (current_mem hc)
+    have hok := staking_ok ops hwf
+    unfold quoPanics
+    split
+    · rfl
+    · rename_i hlen
+      split
+      · rfl
+      · split
+        · rfl
+        · cases hv : c.vals with
+          | nil => rfl
+          | cons x xs =>
+            have hcne : c.vals ≠ [] := by rw [hv]; exact List.cons_ne_nil _ _
+            have h1 := hcs.2.1 hcne
+            have hnne : (createSnapshot (run St.init ops) now).vals ≠ [] := by
+              intro e
+              rw [hv, e] at hlen
+              simp at hlen
+            have h2 := createSnapshot_total_pos now hok hnne
+            have e1 : (c.total == 0) = false := by
+              simp only [beq_eq_false_iff_ne, ne_eq]; omega
+            have e2 : ((createSnapshot (run St.init ops) now).total == 0) = false := by
+              simp only [beq_eq_false_iff_ne, ne_eq]; omega
+            rw [e1, e2]; rfl
+
+/-- **worthy_never_divides_by_zero**: whenever `quoPanics` is false — in particular (previous
+theorem) at every build of a well-formed history — the answer of `isNewSnapshotWorthy` is the same
+whatever value `j` a division by zero would produce: the model's `fraction18 _ 0 = 0` (Lean's
+`x / 0 = 0`) is never relied on. `build` tests `buildPanics` first and does nothing when it holds
+(`rejected_is_noop`). -/
+theorem worthy_never_divides_by_zero (cur new : Snapshot) (h : quoPanics cur new = false) (j : Nat) :
+    worthyAgainstJ j cur new = worthyAgainst cur new := worthyAgainstJ_eq j cur new h
+
+/-- **build_panics_without_assumption**: WITHOUT `bonded ⇒ tokens > 0` the division by zero IS
+reachable: a bonded, unjailed validator with 0 tokens is stored in snapshot 1 (total 0), and the
+next build compares it with an identical fresh snapshot and evaluates `QuoInt(0)`; in the model the
+build then does nothing. This is the only way: the panic needs a NON-EMPTY current or new snapshot
+whose total is 0 (`quoPanics`). -/
+theorem build_panics_without_assumption :
+    buildPanics (run St.init [.setStaking [⟨1, .bonded, false, 0⟩], .build 1 []]) 2 = true ∧
+    run St.init [.setStaking [⟨1, .bonded, false, 0⟩], .build 1 [], .build 2 []] =
+      run St.init [.setStaking [⟨1, .bonded, false, 0⟩], .build 1 []] ∧
+    ¬ StakingWF [.setStaking [⟨1, .bonded, false, 0⟩], .build 1 [], .build 2 []] := by
+  refine ⟨by decide, ?_, ?_⟩
+  · have : buildPanics (run St.init [.setStaking [⟨1, .bonded, false, 0⟩], .build 1 []]) 2 = true := by
+      decide
+    rw [show ([.setStaking [⟨1, .bonded, false, 0⟩], .build 1 [], .build 2 []] : List Op) =
+      [.setStaking [⟨1, .bonded, false, 0⟩], .build 1 []] ++ [.build 2 []] from rfl, run_snoc]
+    simp only [step]
+    rw [build_stuck [] (by unfold proceeds; rw [this]; rfl)]
+  · intro h
+    have := (h [⟨1, .bonded, false, 0⟩] (by simp)).2 ⟨1, .bonded, false, 0⟩ (by simp) rfl
+    exact Nat.lt_irrefl 0 this
 
 /-! ### Part 2 — ids, the current snapshot, immutability -/
 
@@ -1121,10 +1484,7 @@ theorem ids_strictly_increase (ops : List Op) :
   · intro now picks sn h old hold
     obtain ⟨i, hlt, rfl⟩ := List.mem_iff_getElem.mp hold
     have hs : sn.id = s.lastId + 1 := by
-      unfold build at h
-      split at h
-      · simp at h
-      · rw [← Option.some.inj h]
+      rw [(build_some h).2.2.2]
     rw [hs, hi.ids i hlt, hi.last]; omega
 
 /-- **current_is_max** ("the current snapshot is the one with the highest id"). In every reachable
@@ -1219,7 +1579,11 @@ theorem powers_floor (snap : Snapshot) (chain : Nat) (m : Nat × Nat)
   obtain ⟨h1, h2, h3⟩ := head_matching ha
   exact ⟨v, hv, a, h1, h2, h3, ha, rfl, rfl, (power_spec _ _).2, (power_spec _ _).1⟩
 
-/-- **restricted_to_chain** ("that snapshot restricted to validators with an account there").
+/-- **restricted_to_chain** ("that snapshot restricted to validators with an account there" — in
+the reading of `transformSnapshotToCompass`: an account there is an EVM-TYPED account whose chain
+reference id is `chain`; clause 1 / `ValidatorSupportsAllChains` counts accounts of ANY chain type:
+the uniform reading is refuted by `sent_restricted_any_account_violated`, and proved under the
+input assumption `RegsEvmTyped` by `restricted_any_account` / `sent_restricted_any_account`).
 The valset for `chain` is, up to order, the list obtained by walking the snapshot validators and
 emitting ONE entry — address of the first EVM account on `chain`, floored power — for every
 validator that has such an account and nothing for the others; so it has exactly as many entries
@@ -1299,6 +1663,42 @@ theorem restricted_to_chain (snap : Snapshot) (chain : Nat) :
         obtain ⟨w, hw, hmw⟩ := List.mem_flatMap.mp hm'
         obtain ⟨b, _, rfl⟩ := mem_membersOf.mp hmw
         exact power_mono _ _ _ (hv.1 w hw)
+
+/-- **restricted_any_account** ("restricted to validators with an account there", with the SAME
+notion of account as clause 1: any account whose chain reference id is `chain`). HYPOTHESIS: all
+accounts recorded in the snapshot are EVM-typed (for stored snapshots this follows from the input
+assumption `RegsEvmTyped`: `stored_accts_evm`). Then the valset is, up to order, one entry — first
+account on `chain`, floored power — per validator that has ANY account on `chain`; it has as many
+entries as there are such validators; each such validator has its entry; every entry belongs to
+such a validator. -/
+theorem restricted_any_account (snap : Snapshot) (chain : Nat)
+    (hev : ∀ v ∈ snap.vals, ∀ x ∈ v.accts, isEvm x.ctype = true) :
+    (transform snap chain).members.length =
+      (snap.vals.filter (fun v => v.accts.any (fun a => a.chain == chain))).length ∧
+    (∀ v ∈ snap.vals, (∃ a ∈ v.accts, a.chain = chain) →
+      ∃ a, (v.accts.filter (fun a => a.chain == chain)).head? = some a ∧
+        (a.addr, power v.share (snap.vals.map (·.share)).sum) ∈ (transform snap chain).members) ∧
+    (∀ m ∈ (transform snap chain).members, ∃ v ∈ snap.vals, ∃ a,
+      (v.accts.filter (fun a => a.chain == chain)).head? = some a ∧ a.chain = chain ∧
+        m = (a.addr, power v.share (snap.vals.map (·.share)).sum)) := by
+  refine ⟨?_, ?_, ?_⟩
+  · rw [(restricted_to_chain snap chain).2.2.1]
+    congr 1
+    apply List.filter_congr
+    intro v hv
+    exact any_matching_of_evm _ (hev v hv)
+  · intro v hv ⟨a, ha, hc⟩
+    obtain ⟨b, hb⟩ := head?_filter_of_mem (q := fun a => a.chain == chain) ha (by simp [hc])
+    refine ⟨b, hb, ?_⟩
+    apply (transform_members_perm snap chain).mem_iff.mpr
+    refine List.mem_flatMap.mpr ⟨v, hv, mem_membersOf.mpr ⟨b, ?_, rfl⟩⟩
+    rw [matching_of_evm (hev v hv)]; exact hb
+  · intro m hm
+    have hm' := (transform_members_perm snap chain).mem_iff.mp hm
+    obtain ⟨v, hv, hmv⟩ := List.mem_flatMap.mp hm'
+    obtain ⟨a, ha, rfl⟩ := mem_membersOf.mp hmv
+    refine ⟨v, hv, a, ?_, (head_matching ha).2.2, rfl⟩
+    rw [← matching_of_evm (hev v hv)]; exact ha
 
 /-- **powers_sum_le** ("so powers sum to at most 2^32"). For EVERY snapshot and chain the powers
 of the valset sum to at most `2^32` (also when the total stake is 0: all powers are then 0, and
@@ -1560,39 +1960,207 @@ theorem sent_sum_le (ops : List Op) :
   rw [he]
   exact powers_sum_le sn p.1
 
-/-- **sent_total_pos** (no `x/0` in anything that is sent): every sent valset is the valset of a
-stored snapshot whose recorded total is the sum of its shares and is POSITIVE. (A snapshot with
-total 0 gives all powers 0 and fails the quorum test.) -/
-theorem sent_total_pos (ops : List Op) (p : Nat × Valset) (h : p ∈ (run St.init ops).sent) :
-    ∃ sn ∈ (run St.init ops).snaps, p.2 = transform sn p.1 ∧
-      sn.total = (sn.vals.map (·.share)).sum ∧ 0 < sn.total := by
-  obtain ⟨hq, sn, hsn, he⟩ := (inv_reachable ops).sentOk p h
-  have htot := (inv_reachable ops).totals sn hsn
-  refine ⟨sn, hsn, he, htot, ?_⟩
-  rcases Nat.eq_zero_or_pos sn.total with h0 | h0
-  · exfalso
-    have hz : powerSum (transform sn p.1) = 0 := by
-      rw [powerSum_transform, ← htot, h0]; exact sum_zero_power _ _
-    rw [he, hz] at hq
-    revert hq; decide
-  · exact h0
+/-- **sent_total_pos** (no `x/0` in anything that is sent; about THE snapshot of
+`sent_is_current`). Over all histories, for every position `i` of the log of sent messages there is
+the operation `op` of the history that appended the message and the snapshot `cur` that was current
+right after `op`, such that: the message is `transform cur chain` (`SentAtCur`: quorum passed, chain
+active, pending in the queue, `op` is the build that stored `cur` or a just-in-time update);
+`cur` is stored at that point and, in the FINAL state, `FindSnapshotByID cur.id` still yields a
+record with the same validators, shares and total; the recorded total of `cur` is the sum of its
+shares and is POSITIVE. (A snapshot with total 0 gives all powers 0 and fails the quorum test.) -/
+theorem sent_total_pos (ops : List Op) (i : Nat) (p : Nat × Valset)
+    (h : (run St.init ops).sent[i]? = some p) :
+    ∃ pre op post cur, ops = pre ++ op :: post ∧
+      (run St.init pre).sent.length ≤ i ∧
+      (run St.init (pre ++ [op])).sent[i]? = some p ∧
+      SentAtCur (run St.init pre) op p cur ∧
+      cur ∈ (run St.init (pre ++ [op])).snaps ∧
+      (∃ sn', findSnapshot (run St.init ops) cur.id = some sn' ∧ sn'.id = cur.id ∧
+        sn'.vals = cur.vals ∧ sn'.total = cur.total ∧ cur.chains <+: sn'.chains) ∧
+      cur.total = (cur.vals.map (·.share)).sum ∧ 0 < cur.total := by
+  obtain ⟨pre, op, post, hops, h1, h2, _, cur, hsa⟩ := sent_is_current ops i p h
+  have hcur : current (run St.init (pre ++ [op])) = some cur := by rw [run_snoc]; exact hsa.1
+  have hmem : cur ∈ (run St.init (pre ++ [op])).snaps := current_mem hcur
+  have htot := (inv_reachable (pre ++ [op])).totals cur hmem
+  refine ⟨pre, op, post, cur, hops, h1, h2, hsa, hmem, ?_, htot, ?_⟩
+  · obtain ⟨sn', hf, e1, e2, e3, _, e5⟩ := stored_immutable (pre ++ [op]) post cur hmem
+    have e : ops = (pre ++ [op]) ++ post := by rw [hops]; simp
+    rw [← run_append, ← e] at hf
+    exact ⟨sn', hf, e1, e2, e3, e5⟩
+  · rcases Nat.eq_zero_or_pos cur.total with h0 | h0
+    · exfalso
+      have hz : powerSum (transform cur p.1) = 0 := by
+        rw [powerSum_transform, ← htot, h0]; exact sum_zero_power _ _
+      have hq := enough_ge hsa.2.2.1
+      rw [hsa.2.1, hz] at hq
+      revert hq; decide
+    · exact h0
 
-/-- **powers_floor for what is sent** (stored snapshots, all histories): every entry of every sent
-valset is the address of the first EVM account on that chain of a validator of a stored snapshot,
-and its power `m.2` is the genuine floor of `share · 2^32 / total` with `total` the snapshot's
-RECORDED total, which is positive: `m.2 · total ≤ share · 2^32 < (m.2 + 1) · total`. -/
-theorem sent_powers_floor (ops : List Op) (p : Nat × Valset) (h : p ∈ (run St.init ops).sent)
-    (m : Nat × Nat) (hm : m ∈ p.2.members) :
-    ∃ sn ∈ (run St.init ops).snaps, p.2 = transform sn p.1 ∧ 0 < sn.total ∧
-      ∃ v ∈ sn.vals, ∃ a ∈ v.accts, isEvm a.ctype = true ∧ a.chain = p.1 ∧
-        (v.accts.filter (fun a => isEvm a.ctype && a.chain == p.1)).head? = some a ∧
-        m.1 = a.addr ∧ m.2 = v.share * 2 ^ 32 / sn.total ∧
-        m.2 * sn.total ≤ v.share * 2 ^ 32 ∧ v.share * 2 ^ 32 < (m.2 + 1) * sn.total := by
-  obtain ⟨sn, hsn, he, htot, hpos⟩ := sent_total_pos ops p h
-  rw [he] at hm
-  obtain ⟨v, hv, a, ha, h1, h2, h3, h4, _, _, h7⟩ := powers_floor sn p.1 m hm
-  rw [← htot] at h7
-  exact ⟨sn, hsn, he, hpos, v, hv, a, ha, h1, h2, h3, h4, h7 hpos⟩
+/-- **powers_floor for what is sent** (THE snapshot of `sent_is_current`, all histories): with
+`pre`, `op`, `cur` as in `sent_total_pos`, every entry of the sent valset is the address of the
+first EVM account on that chain of a validator of `cur`, and its power `m.2` is the genuine floor of
+`share · 2^32 / total` with `total` the RECORDED total of `cur`, which is positive:
+`m.2 · total ≤ share · 2^32 < (m.2 + 1) · total`. -/
+theorem sent_powers_floor (ops : List Op) (i : Nat) (p : Nat × Valset)
+    (h : (run St.init ops).sent[i]? = some p) :
+    ∃ pre op post cur, ops = pre ++ op :: post ∧
+      (run St.init pre).sent.length ≤ i ∧
+      (run St.init (pre ++ [op])).sent[i]? = some p ∧
+      SentAtCur (run St.init pre) op p cur ∧ 0 < cur.total ∧
+      ∀ m ∈ p.2.members,
+        ∃ v ∈ cur.vals, ∃ a ∈ v.accts, isEvm a.ctype = true ∧ a.chain = p.1 ∧
+          (v.accts.filter (fun a => isEvm a.ctype && a.chain == p.1)).head? = some a ∧
+          m.1 = a.addr ∧ m.2 = v.share * 2 ^ 32 / cur.total ∧
+          m.2 * cur.total ≤ v.share * 2 ^ 32 ∧ v.share * 2 ^ 32 < (m.2 + 1) * cur.total := by
+  obtain ⟨pre, op, post, cur, hops, h1, h2, hsa, _, _, htot, hpos⟩ := sent_total_pos ops i p h
+  refine ⟨pre, op, post, cur, hops, h1, h2, hsa, hpos, ?_⟩
+  intro m hm
+  rw [hsa.2.1] at hm
+  obtain ⟨v, hv, a, ha, e1, e2, e3, e4, _, _, e7⟩ := powers_floor cur p.1 m hm
+  rw [← htot] at e7
+  exact ⟨v, hv, a, ha, e1, e2, e3, e4, e7 hpos⟩
+
+/-- membership form of the two previous theorems (for callers that have `p ∈ sent`) -/
+theorem sent_total_pos_mem (ops : List Op) (p : Nat × Valset) (h : p ∈ (run St.init ops).sent) :
+    ∃ pre op post cur, ops = pre ++ op :: post ∧ SentAtCur (run St.init pre) op p cur ∧
+      cur.total = (cur.vals.map (·.share)).sum ∧ 0 < cur.total := by
+  obtain ⟨i, hi⟩ := List.mem_iff_getElem?.mp h
+  obtain ⟨pre, op, post, cur, hops, _, _, hsa, _, _, htot, hpos⟩ := sent_total_pos ops i p hi
+  exact ⟨pre, op, post, cur, hops, hsa, htot, hpos⟩
+
+/-! #### "an account there": the two readings -/
+
+/-- state-level consequence of the input assumption `RegsEvmTyped`: every account recorded in
+every stored snapshot of every reachable state is EVM-typed -/
+theorem stored_accts_evm (ops : List Op) (hreg : RegsEvmTyped ops) :
+    (∀ p ∈ (run St.init ops).accts, ∀ x ∈ p.2, isEvm x.ctype = true) ∧
+    ∀ sn ∈ (run St.init ops).snaps, ∀ v ∈ sn.vals, ∀ x ∈ v.accts, isEvm x.ctype = true := by
+  refine ⟨accts_evm_reachable ops hreg, ?_⟩
+  intro sn hsn v hv x hx
+  obtain ⟨pre, now, picks, post, hops, _, _, _, _, _, hmem, _, _⟩ := stored_snapshot_exact ops sn hsn
+  obtain ⟨sv, _, _, _, _, rfl⟩ := (hmem v).mp hv
+  obtain ⟨q, hq, hxq⟩ := mem_acctsOf hx
+  exact accts_evm_reachable pre (by rw [hops] at hreg; exact hreg.prefix) q hq x hxq
+
+/- FULL-STRENGTH CLAUSE with ONE notion of "account on a chain" for clause 1 ("validators that have
+   an account on every active remote chain") and clause 3 ("restricted to validators with an
+   account there"):
+
+     theorem sent_restricted_any_account (ops : List Op) :
+         ∀ p ∈ (run St.init ops).sent, ∀ sn ∈ (run St.init ops).snaps, sn.id = p.2.id →
+           ∀ v ∈ sn.vals, (∃ a ∈ v.accts, a.chain = p.1) →
+             ∃ a ∈ v.accts, a.chain = p.1 ∧ a.addr ∈ p.2.members.map (·.1)
+
+   It is FALSE — for the model and for /repo: `ValidatorSupportsAllChains` compares chain reference
+   ids only, `transformSnapshotToCompass` additionally requires `strings.ToLower(chainType) == "evm"`,
+   and `SetExternalChainInfoState` stores accounts of any chain type (the harness registers
+   "cosmos"-typed accounts on EVM chain ids through the real message server, 0 mismatches). So a
+   validator can be IN the snapshot on the strength of an account that can never put it INTO the
+   valset. The negation is proved next on `exOps`; with the EVM-typed notion of account it is
+   clause 1 that fails instead (`snapshot_evm_account_reading_violated`). What holds:
+   `restricted_to_chain` (EVM-typed accounts, no assumption) and `sent_restricted_any_account`
+   (any account, under the input assumption `RegsEvmTyped`). -/
+
+/-- **sent_restricted_any_account_violated**: in `exOps` validator 2 (stake 1000000) is in the
+current snapshot 2 with an account on chain 1 (chain type "cosmos"), and the valset sent to chain 1
+for snapshot 2 has no entry for it. -/
+theorem sent_restricted_any_account_violated :
+    ¬ ∀ ops : List Op, ∀ p ∈ (run St.init ops).sent, ∀ sn ∈ (run St.init ops).snaps,
+        sn.id = p.2.id → ∀ v ∈ sn.vals, (∃ a ∈ v.accts, a.chain = p.1) →
+          ∃ a ∈ v.accts, a.chain = p.1 ∧ a.addr ∈ p.2.members.map (·.1) := by
+  intro h
+  have := h exOps (1, ⟨2, [(101, 2863311530)]⟩) (by decide)
+    ⟨2, [⟨1, 2000000, [⟨0, 1, 101, []⟩]⟩, ⟨2, 1000000, [⟨2, 1, 102, [7]⟩]⟩], 3000000, 20, []⟩
+    (by decide) rfl ⟨2, 1000000, [⟨2, 1, 102, [7]⟩]⟩ (by decide) ⟨⟨2, 1, 102, [7]⟩, by decide, rfl⟩
+  revert this
+  decide
+
+/-- **snapshot_evm_account_reading_violated**: with the EVM-typed notion of account (the one of
+the valset) clause 1 fails on the same history: snapshot 2 of `exOps` was built while chain 1 was
+active and lists validator 2, which has no EVM-typed account on chain 1. -/
+theorem snapshot_evm_account_reading_violated :
+    ¬ ∀ (pre : List Op) (now : Nat) (picks : List Nat) (sn : Snapshot),
+        (build (run St.init pre) now picks).2 = some sn →
+          ∀ v ∈ sn.vals, ∀ c ∈ activeChains (run St.init pre),
+            ∃ a ∈ v.accts, isEvm a.ctype = true ∧ a.chain = c := by
+  intro h
+  have := h (exOps.take 7) 20 [1]
+    ⟨2, [⟨1, 2000000, [⟨0, 1, 101, []⟩]⟩, ⟨2, 1000000, [⟨2, 1, 102, [7]⟩]⟩], 3000000, 20, []⟩
+    (by decide) ⟨2, 1000000, [⟨2, 1, 102, [7]⟩]⟩ (by decide) 1 (by decide)
+  revert this
+  decide
+
+/-- **sent_restricted_any_account** (clause 3 with the notion of account of clause 1, under the
+INPUT ASSUMPTION `RegsEvmTyped`: every registered account is EVM-typed — true for what pigeon
+sends, not enforced by /repo). Over all histories, for every position of the log of sent messages,
+with `pre`, `op`, `cur` as in `sent_total_pos` (`cur` = the snapshot current right after the
+sending operation): all accounts recorded in `cur` are EVM-typed; the sent valset has exactly as
+many entries as `cur` has validators with ANY account on the chain; each such validator has its
+entry (first account on the chain, floored power with the recorded total); and every entry belongs
+to such a validator. -/
+theorem sent_restricted_any_account (ops : List Op) (hreg : RegsEvmTyped ops) (i : Nat)
+    (p : Nat × Valset) (h : (run St.init ops).sent[i]? = some p) :
+    ∃ pre op post cur, ops = pre ++ op :: post ∧
+      (run St.init pre).sent.length ≤ i ∧
+      (run St.init (pre ++ [op])).sent[i]? = some p ∧
+      SentAtCur (run St.init pre) op p cur ∧
+      (∀ v ∈ cur.vals, ∀ x ∈ v.accts, isEvm x.ctype = true) ∧
+      p.2.members.length =
+        (cur.vals.filter (fun v => v.accts.any (fun a => a.chain == p.1))).length ∧
+      (∀ v ∈ cur.vals, (∃ a ∈ v.accts, a.chain = p.1) →
+        ∃ a, (v.accts.filter (fun a => a.chain == p.1)).head? = some a ∧
+          (a.addr, power v.share cur.total) ∈ p.2.members) ∧
+      (∀ m ∈ p.2.members, ∃ v ∈ cur.vals, ∃ a,
+        (v.accts.filter (fun a => a.chain == p.1)).head? = some a ∧ a.chain = p.1 ∧
+          m = (a.addr, power v.share cur.total)) := by
+  obtain ⟨pre, op, post, cur, hops, h1, h2, hsa, hmem, _, htot, _⟩ := sent_total_pos ops i p h
+  have hreg' : RegsEvmTyped (pre ++ [op]) := by
+    have e : ops = (pre ++ [op]) ++ post := by rw [hops]; simp
+    rw [e] at hreg; exact hreg.prefix
+  have hev := (stored_accts_evm (pre ++ [op]) hreg').2 cur hmem
+  obtain ⟨r1, r2, r3⟩ := restricted_any_account cur p.1 hev
+  rw [← htot, ← hsa.2.1] at r2 r3
+  rw [← hsa.2.1] at r1
+  exact ⟨pre, op, post, cur, hops, h1, h2, hsa, hev, r1, r2, r3⟩
+
+/-- **sent_by_build_lists_all** (under `RegsEvmTyped`): a valset sent by `PublishSnapshotToAllChains`
+right after a build is sent for a chain that was active when the snapshot was built, so by clause 1
+EVERY validator of the snapshot has an account there and the restriction removes nobody: the valset
+has one entry per snapshot validator. (A just-in-time update can be for a chain activated after the
+build; there the restriction is a real one.) -/
+theorem sent_by_build_lists_all (ops : List Op) (hreg : RegsEvmTyped ops) (i : Nat)
+    (p : Nat × Valset) (h : (run St.init ops).sent[i]? = some p) :
+    ∃ pre op post cur, ops = pre ++ op :: post ∧ SentAtCur (run St.init pre) op p cur ∧
+      ((∃ now picks, op = .build now picks) →
+        (∀ v ∈ cur.vals, ∃ a ∈ v.accts, a.chain = p.1) ∧
+        p.2.members.length = cur.vals.length) := by
+  obtain ⟨pre, op, post, cur, hops, _, _, hsa, _, hlen, _, _⟩ :=
+    sent_restricted_any_account ops hreg i p h
+  refine ⟨pre, op, post, cur, hops, hsa, ?_⟩
+  rintro ⟨now, picks, rfl⟩
+  have hi := inv_reachable pre
+  generalize run St.init pre = s at hsa hi
+  obtain ⟨_, _, _, ⟨ci, hci, href, hact⟩, _, hor⟩ := hsa
+  have hb : (build s now picks).2 = some cur := by
+    rcases hor with ⟨now', picks', e, hb⟩ | ⟨pick, e, _⟩
+    · cases e; exact hb
+    · cases e
+  obtain ⟨hpr, _, _, hx⟩ := build_some hb
+  have hch : (step s (.build now picks)).chains = s.chains := (build_good now picks hi hpr).chains
+  rw [hch] at hci
+  have hact' : p.1 ∈ activeChains s := (mem_activeChains s p.1).mpr ⟨ci, hci, hact, href⟩
+  have hall : ∀ v ∈ cur.vals, ∃ a ∈ v.accts, a.chain = p.1 := by
+    intro v hv
+    have hv' : v ∈ (createSnapshot s now).vals := by rw [hx] at hv; exact hv
+    obtain ⟨sv, _, hel, rfl⟩ := mem_createSnapshot hv'
+    exact ((eligible_iff s sv).mp hel).2.2 p.1 hact'
+  refine ⟨hall, ?_⟩
+  rw [hlen]
+  congr 1
+  apply List.filter_eq_self.mpr
+  intro v hv
+  obtain ⟨a, ha, hc⟩ := hall v hv
+  exact List.any_eq_true.mpr ⟨a, ha, by simp [hc]⟩
 
 /-- **powers_floor for STORED snapshots** (all histories; replaces the former statement about the
 unstored `createSnapshot`): for every record `sn` of the store of a reachable state and every chain,
@@ -1619,8 +2187,10 @@ theorem powers_floor_stored (ops : List Op) (sn : Snapshot) (hsn : sn ∈ (run S
 /-- **rejected_is_noop**: every operation that is rejected — registration (more than 100
 accounts / validator not bonded-and-unjailed / address collision), adding a chain that exists,
 activating or removing an unknown chain, `SetSnapshotOnChain` for an unknown id, a just-in-time
-update without chain / current snapshot / published snapshot / relayer — and a build whose snapshot
-is not worthy leave the WHOLE state unchanged. -/
+update without chain / current snapshot / published snapshot / relayer — a build whose snapshot
+is not worthy and a build that runs into the division by zero of `isNewSnapshotWorthy`
+(`buildPanics`: the Go panic drops the caller's cache context) leave the WHOLE state unchanged; a
+build returns nothing exactly in those two cases. -/
 theorem rejected_is_noop (s : St) :
     (∀ v a, (register s v a).2 = .rejected → (register s v a).1 = s) ∧
     (∀ c, (support s c).2 = .rejected → (support s c).1 = s) ∧
@@ -1630,8 +2200,10 @@ theorem rejected_is_noop (s : St) :
     (∀ id c, (setOnChain s id c).2 = .rejected ↔ findSnapshot s id = none) ∧
     (∀ c pick, (jit s c pick).2 = .rejected → (jit s c pick).1 = s) ∧
     (∀ now picks, (build s now picks).2 = none → (build s now picks).1 = s) ∧
-    (∀ now picks, (build s now picks).2 = none ↔ worthy (current s) (createSnapshot s now) = false) := by
-  refine ⟨?_, ?_, ?_, ?_, ?_, ?_, ?_, ?_, ?_⟩
+    (∀ now picks, (build s now picks).2 = none ↔
+      (buildPanics s now = true ∨ worthy (current s) (createSnapshot s now) = false)) ∧
+    (∀ now picks, buildPanics s now = true → build s now picks = (s, none)) := by
+  refine ⟨?_, ?_, ?_, ?_, ?_, ?_, ?_, ?_, ?_, ?_⟩
   · intro v a h
     unfold register at h ⊢
     split
@@ -1684,15 +2256,20 @@ theorem rejected_is_noop (s : St) :
             · rename_i h1 h2 h3 h4 h5 h6 h7
               simp [h1, h2, h3, h4, h5, h6, h7] at h
   · intro now picks h
-    unfold build at h ⊢
-    split
-    · rfl
-    · rename_i h1; simp [h1] at h
+    cases hw : proceeds s now
+    · rw [build_stuck picks hw]
+    · rw [build_proceeds picks hw] at h; simp at h
   · intro now picks
-    unfold build
-    split
-    · rename_i h1; simpa using h1
-    · rename_i h1; simpa using h1
+    cases hw : proceeds s now
+    · rw [build_stuck picks hw]
+      unfold proceeds at hw
+      cases hp : buildPanics s now <;> cases hwo : worthy (current s) (createSnapshot s now) <;>
+        simp [hp, hwo] at hw ⊢
+    · rw [build_proceeds picks hw]
+      obtain ⟨hp, hwo⟩ := (proceeds_iff s now).mp hw
+      simp [hp, hwo]
+  · intro now picks h
+    exact build_stuck picks (by unfold proceeds; simp [h])
 
 /-! ## Non-vacuity -/
 
@@ -1721,13 +2298,53 @@ example : (run St.init [.setStaking [⟨1, .bonded, false, 1999999⟩, ⟨2, .bo
     .support 1, .activate 1, .register 1 [⟨0, 1, 101, []⟩], .register 2 [⟨2, 1, 102, []⟩],
     .build 20 [1]]).sent = [] := by decide
 
-/-- a bonded validator with stake 0 (total 0): the snapshot is stored, all powers are 0 by the
-explicit branch, nothing is sent -/
+/-- a bonded validator with stake 0 (total 0; this history violates `StakingWF`): the snapshot is
+stored, all powers are 0 by the explicit branch, nothing is sent -/
 example : ((run St.init [.setStaking [⟨1, .bonded, false, 0⟩], .support 1, .activate 1,
     .register 1 [⟨0, 1, 11, []⟩], .build 1 [1]]).snaps.map
       (fun sn => (sn.id, sn.total, (transform sn 1).members)),
     (run St.init [.setStaking [⟨1, .bonded, false, 0⟩], .support 1, .activate 1,
     .register 1 [⟨0, 1, 11, []⟩], .build 1 [1]]).sent) = ([(1, 0, [(11, 0)])], []) := by decide
+
+/-- … and the NEXT build of that history is the division by zero of `isNewSnapshotWorthy`
+(`build_panics_without_assumption`); with a positive stake the same second build reaches the
+percentage loop, does not panic and is simply not worthy -/
+example : buildPanics (run St.init [.setStaking [⟨1, .bonded, false, 0⟩], .build 1 []]) 2 = true ∧
+    buildPanics (run St.init [.setStaking [⟨1, .bonded, false, 7⟩], .build 1 []]) 2 = false ∧
+    (build (run St.init [.setStaking [⟨1, .bonded, false, 7⟩], .build 1 []]) 2 []).2 = none ∧
+    quoPanics ⟨1, [⟨1, 7, []⟩], 7, 1, []⟩ ⟨0, [⟨1, 0, []⟩], 0, 2, []⟩ = true ∧
+    quoPanics ⟨1, [], 0, 1, []⟩ ⟨0, [], 0, 2, []⟩ = false := by decide
+
+/-- a history in which every registered account is EVM-typed (`RegsEvmTyped`) and the staking
+inputs are well formed (`StakingWF`): snapshot 1 is sent to chain 1 by the build (all three
+validators listed), snapshot 2 is sent to chain 2 — activated after the build — by a just-in-time
+update, restricted to the two validators that have an account there -/
+def evmOps : List Op :=
+  [.setStaking [⟨1, .bonded, false, 5⟩, ⟨2, .bonded, false, 1⟩, ⟨3, .bonded, false, 1⟩],
+   .support 1, .activate 1,
+   .register 1 [⟨0, 1, 11, []⟩], .register 2 [⟨1, 1, 12, []⟩], .register 3 [⟨0, 1, 13, []⟩],
+   .build 10 [1], .onChain 1 2, .support 2,
+   .register 1 [⟨0, 1, 11, []⟩, ⟨1, 2, 21, []⟩], .register 2 [⟨1, 1, 12, []⟩, ⟨0, 2, 22, []⟩],
+   .build 11 [], .activate 2, .jit 2 true]
+
+example : RegsEvmTyped evmOps := by
+  intro v a h x hx
+  simp only [evmOps, List.mem_cons, Op.register.injEq, reduceCtorEq, false_or, List.not_mem_nil,
+    or_false] at h
+  rcases h with ⟨_, rfl⟩ | ⟨_, rfl⟩ | ⟨_, rfl⟩ | ⟨_, rfl⟩ | ⟨_, rfl⟩ <;> revert x <;> decide
+
+example : StakingWF evmOps := by
+  intro l hl
+  have : l = [⟨1, .bonded, false, 5⟩, ⟨2, .bonded, false, 1⟩, ⟨3, .bonded, false, 1⟩] := by
+    simpa [evmOps] using hl
+  subst this; decide
+
+example : (run St.init evmOps).sent =
+      [(1, ⟨1, [(11, 3067833782), (13, 613566756), (12, 613566756)]⟩),
+       (2, ⟨2, [(21, 3067833782), (22, 613566756)]⟩)] ∧
+    (run St.init evmOps).snaps.map (fun sn => (sn.id, sn.vals.length, sn.total, sn.chains)) =
+      [(1, 3, 7, [2]), (2, 3, 7, [])] ∧
+    buildPanics (run St.init evmOps) 12 = false := by decide
 
 /-- the just-in-time path is reachable: snapshot 1 goes live on chain 1, snapshot 2 is built while
 no relayer can be assigned, the just-in-time update then sends the valset of snapshot 2 = the
